@@ -65,6 +65,7 @@ struct Interp {
     ParamSpec specOf(const Op &op) const;
     std::string groupOf(long long g) const;
     bool halted = false;                             // history ended by an accepted undocumented deviation
+    std::vector<SFrame> lastColModel;               // content intended for each frame of lastCol (recorded while it was built)
     std::vector<ezc3d::DataNS::Frame> lastCol;       // caller's column vector of the last pcol/acol (kept for reuse)
     std::string dir;                                 // scratch directory (must exist)
     std::string lastSavePath;
